@@ -1,10 +1,10 @@
 package rules
 
 import (
-	"go/types"
 	"go/ast"
 	"go/constant"
 	"go/token"
+	"go/types"
 	"strings"
 
 	"golang.org/x/tools/go/ssa"
